@@ -85,8 +85,9 @@ def search(pid, cases, seed, time_ms, out):
     if not binp:
         return dict(available=False, note=msg)
     os.makedirs(os.path.dirname(out), exist_ok=True)
-    if os.path.exists(out):
-        os.remove(out)
+    for f in (out, out + ".current"):
+        if os.path.exists(f):
+            os.remove(f)
     try:
         p = subprocess.run([binp, "search", "--prop", pid, "--cases", str(cases), "--seed", str(seed), "--time-ms", str(time_ms), "--out", out],
                            stdout=subprocess.PIPE, stderr=subprocess.PIPE, text=True, timeout=time_ms / 1000.0 + 120)
@@ -100,17 +101,35 @@ def search(pid, cases, seed, time_ms, out):
     if p.returncode == 1 and os.path.exists(out):
         f = re.search(r"^FAIL (.*)$", txt, re.M)
         res.update(found=True, why=f.group(1) if f else "?", file=out)
+    elif p.returncode < 0 or p.returncode >= 128:
+        # the process that runs the real crate was killed by a signal (segmentation fault, abort): under safe use of the public
+        # API that is a memory-safety violation of the crate; the case being executed was written to <out>.current beforehand
+        cur = out + ".current"
+        sig = -p.returncode if p.returncode < 0 else p.returncode - 128
+        if os.path.exists(cur):
+            body = open(cur).read()
+            why = "the process executing this case against the real crate was killed by signal %d (memory-safety violation / abort under safe use of the public API)" % sig
+            open(out, "w").write("# property=%s\n# found-by=bounded search of the real crate (the harness process crashed)\n# failure: %s\n%s" % (pid, why, body))
+            res.update(found=True, why=why, file=out)
+        else:
+            res.update(available=False, note="harness killed by signal %d, no case recorded" % sig)
     elif p.returncode != 0:
         res.update(available=False, note="harness exited %d: %s" % (p.returncode, (p.stderr or txt)[-300:]))
     return res
 
 
 def replay(pid, path):
+    if not os.path.exists(path):
+        print("replay: no such file: %s" % path)
+        return 2
     binp, msg = build()
     if not binp:
         print("replay: %s" % msg)
         return 2
     p = subprocess.run([binp, "replay", "--prop", pid, "--file", path], stdout=subprocess.PIPE, stderr=subprocess.PIPE, text=True)
     print(open(path).read().rstrip())
+    if p.returncode < 0 or p.returncode >= 128:
+        print("replay against the crate built from %s: the process was killed by signal %d (the case still fails)" % (REPO, -p.returncode if p.returncode < 0 else p.returncode - 128))
+        return 1
     print("replay against the crate built from %s: %s" % (REPO, p.stdout.strip()))
     return p.returncode
